@@ -689,7 +689,8 @@ def run(tier):
                 sig = "C19:option=%s:%s" % (j[0], sp)
             else:
                 sig = "C19:pair=%s+%s" % (j[0], j[2])
-            ck.violation(sig, "option %s given as [%s]: %s" % (what, sp, m), files={"p.l": res.get("spec", "")}, case={"flex_stderr": res.get("flex_stderr")})
+            ck.violation(sig, "option %s given as [%s]: %s" % (what, sp, m), files={"p.l": res.get("spec", "")}, case={"flex_stderr": res.get("flex_stderr")},
+                         replay={"module": "vflib.checks.c19", "func": "evaluate", "args": list(j)})
         if not res["msgs"] and j[2] is None:
             held.add(j[0])
         if len(ck.samples) < 10 and j[2] is None:
@@ -709,7 +710,7 @@ def run(tier):
             continue
         nord += res["runs"]
         for kind, m in res["msgs"]:
-            ck.violation("C19:%s:%s+%s" % (kind, j[0], j[1]), m, case={"pair": j})
+            ck.violation("C19:%s:%s+%s" % (kind, j[0], j[1]), m, case={"pair": j}, replay={"module": "vflib.checks.c19", "func": "order_job", "args": list(j)})
     ck.cov["order_parity_runs"] = nord
     ck.cov["order_parity_pairs"] = len(opairs)
     ck.cov.update(evaluations=n1 + n2 + nord, distinct_nontrivial=len(held), options_in_table=len(T), single_option_probes=n1, pair_probes=n2,
